@@ -93,6 +93,12 @@ fixed = [
   [repro('C13', 'range-format', '- a\r  / T: d\r    + x', cfg(), {'start': 3, 'end': 7}), repro('C13', 'range-format', '- a\u2029  - b\n    - c', cfg(), {'start': 3, 'end': 9})]),
  ('FX22-range-breaks-in-equation', ['C13'], 'range formatting inside an equation could break code embedded', 'range 2..6 of `$#f.f.gg(x)$` at width 0 returned a dot chain broken over lines, which ends the embedded expression',
   [repro('C13', 'range-format', '$#f.f.gg(x)$', cfg(0), {'start': 2, 'end': 6})]),
+ ('FX23-range-item-marker-column', ['C13'], 'range formatting of a list item that follows another marker', 'range 2..3 of `- - b⏎    c` returned the inner item with its continuation line indented by 2 instead of 4 (the marker column): `c` left the item',
+  [repro('C13', 'range-format', '- - b\n    c', cfg(), {'start': 2, 'end': 3}), repro('C13', 'range-format', '+ - a\n    b\n  - c', cfg(), {'start': 2, 'end': 5})]),
+ ('FX24-directive-across-paragraph-break', ['C07'], 'a blank line in markup between an', '`// @typstyle off⏎⏎#f( 1,2 )` at markup level was reformatted: the paragraph break consumed the directive',
+  [repro('C07', 'directive-target-verbatim', '// @typstyle off\n\n#f( 1,2 )\n'), repro('C07', 'directive-target-verbatim', 'text /* @typstyle off */\n\n#g( 1,2 , h(3 ,4) ) more', cfg(0))]),
+ ('FX25-set-rule-content-args', ['C01', 'C06'], 'a set rule lost the content-block arguments', '`#set text(red)[a]` -> `#set text(red)` (argument dropped), `#set text[a]` -> `#set text([a])`',
+  [repro('C01', 'N(parse(x))==N(parse(y))', '#set text(red)[a]'), repro('C01', 'N(parse(x))==N(parse(y))', '#set text[a]', cfg(0)), repro('C06', 'comment-stream', '#set text(red)[a /* c */ b]')]),
 ]
 for fid, props, commit_key, what, repros in fixed:
     assert commit_of(commit_key), commit_key
